@@ -6,10 +6,11 @@ from .inds import IND
 from .framework import fam_result, WORK
 from . import native
 
-PRELUDE = r'''#![allow(unused, non_snake_case, clippy::all)]
+PRELUDE = r'''
 use ta::indicators::*;
 use ta::{Next, Reset, Period, DataItem, Open, High, Low, Close, Volume};
 use ta::errors::TaError;
+use tok::{to_tok, from_tok, Tok};
 
 #[derive(Clone, Copy)]
 pub struct B { pub o: f64, pub h: f64, pub l: f64, pub c: f64, pub v: f64 }
@@ -191,7 +192,7 @@ def write_project(prop, harnesses):
         f.write('[net]\noffline = true\n')
     lock = '/verif/replay/Cargo.lock' if os.path.exists('/verif/replay/Cargo.lock') else '/repo/Cargo.lock'
     shutil.copy(lock, os.path.join(d, 'Cargo.lock'))
-    src = PRELUDE + '\n'.join(h.source() for h in harnesses) + '}\n'
+    src = '#![allow(unused, non_snake_case, clippy::all)]\n' + open('/verif/kani/tokser.rs').read() + PRELUDE + '\n'.join(h.source() for h in harnesses) + '}\n'
     p = os.path.join(d, 'src', 'lib.rs')
     old = open(p).read() if os.path.exists(p) else None
     if old != src:
@@ -336,3 +337,94 @@ def run_family_set(prop, harnesses, jobs=12, timeout_s=120, cbmc_args=(), stats=
         else:
             out.append(fam_result(h.family, 'K', 'undecided', detail='kani counterexample [%s] did not reproduce natively (%s); values=%r' % (checks, detail, vals), **base))
     return out
+
+
+# ------------------------------------------------------------------------------------------------
+# Operation scripts for harnesses: the same ops drive the generated Rust and the native replay.
+class KOps:
+    """emit an op script into a harness; every feed's output is kept as a [u64; 3] variable"""
+
+    def __init__(s, b):
+        s.b, s.ops, s.outs, s.n = b, [], [], 0
+        s.tables = {}
+
+    def new(s, slot, name, periods=(), mult='2.5'):
+        s.b.emit('let mut %s = %s;' % (slot, ctor(name, periods, mult)))
+        s.ops.append(('new', slot, name, tuple(periods), float(mult) if IND[name]['mult'] else None))
+        s.outs.append(None)
+
+    def _val(s, tag, policy):
+        if policy == 'any': return s.b.anyf(tag), ('sym', tag)
+        if policy == 'finite': return s.b.anyf(tag, finite=True), ('sym', tag)
+        if isinstance(policy, tuple) and policy[0] == 'pick':
+            s.tables[tag] = policy[1]
+            return s.b.pick(tag, policy[1]), ('pick', tag)
+        if isinstance(policy, tuple) and policy[0] == 'lit':
+            return lit(policy[1]), ('lit', policy[1])
+        if isinstance(policy, tuple) and policy[0] == 'var':      # reuse an already drawn rust variable
+            return policy[1], policy[2]
+        raise ValueError(policy)
+
+    def feed(s, slot, mode, policy, tag=None):
+        """policy: one policy for a scalar, or a 5-tuple of policies (o,h,l,c,v) / a single policy applied to all five for bars"""
+        s.n += 1
+        tag = tag or 'i%d' % s.n
+        ov = 'o%d' % s.n
+        if mode == 'scalar':
+            v, d = s._val(tag, policy)
+            s.b.emit('let %s = %s.next(%s).ob();' % (ov, slot, v))
+            s.ops.append(('feed', slot, (d,)))
+        else:
+            pols = policy if (isinstance(policy, (list, tuple)) and len(policy) == 5 and not (isinstance(policy, tuple) and policy and policy[0] in ('pick', 'lit', 'var'))) else [policy] * 5
+            vs, ds = [], []
+            for f, pol in zip('ohlcv', pols):
+                v, d = s._val('%s.%s' % (tag, f), pol); vs.append(v); ds.append(d)
+            s.b.emit('let %s = %s.next(&B { o: %s, h: %s, l: %s, c: %s, v: %s }).ob();' % ((ov, slot) + tuple(vs)))
+            s.ops.append(('feed', slot, tuple(ds)))
+        s.outs.append(ov)
+        return ov
+
+    def reset(s, slot):
+        s.b.emit('%s.reset();' % slot); s.ops.append(('reset', slot)); s.outs.append(None)
+
+    def clone(s, src, dst):
+        s.b.emit('let mut %s = %s.clone();' % (dst, src)); s.ops.append(('clone', src, dst)); s.outs.append(None)
+
+    def serde(s, src, dst, name):
+        s.b.emit('let mut %s: %s = bincode::deserialize(&bincode::serialize(&%s).unwrap()).unwrap();' % (dst, tyname(name), src))
+        s.ops.append(('serde', src, dst)); s.outs.append(None)
+
+    def concrete(s, vals):
+        """ops with hex-bit-pattern values, for the native replay"""
+        out = []
+        for op in s.ops:
+            if op[0] != 'feed':
+                out.append(op); continue
+            vs = []
+            for d in op[2]:
+                if d[0] == 'sym': vs.append(vals[d[1]])
+                elif d[0] == 'pick': vs.append(native.f2hex(s.tables[d[1]][vals[d[1]]]) if not isinstance(s.tables[d[1]][vals[d[1]]], str) else s.tables[d[1]][vals[d[1]]])
+                else: vs.append(native.f2hex(d[1]) if not isinstance(d[1], str) else d[1])
+            out.append(('feed', op[1], tuple(vs) if len(vs) > 1 else vs[0]))
+        return out
+
+
+def native_ops(ops, profile='dev'):
+    """run concrete ops (incl. 'serde') natively -> (lines, outs aligned with ops)"""
+    from . import rfam
+    lines = []
+    for op in ops:
+        if op[0] == 'serde': lines.append('serde %s %s' % (op[1], op[2]))
+        else: lines += rfam.ops_lines([op])
+    rep = native.run_script(lines, profile)
+    outs = []
+    for op, r in zip(ops, rep):
+        if op[0] == 'feed': outs.append(r[1] if r[0] == 'out' else r[0])
+        elif r[0] in ('panic', 'err'): outs.append(r[0])
+        else: outs.append(None)
+    return lines, outs
+
+
+def same_f(a, b):
+    """python twin of the harness' same(): NaN == NaN, -0.0 == 0.0, else bit equality (here: float equality)"""
+    return (a != a and b != b) or a == b
